@@ -353,3 +353,78 @@ package db
 //@   ghost var nHook int = 0
 //@   assert @hook: [hook-once-with-the-event] nHook == 0 && arg0 == ev && ev != nil
 //@   ghost update @hook: nHook = nHook + 1
+//
+// ---- C06: checkpoint bookkeeping under busy / partial checkpoints ---------------------------------------
+// WALResetWatch: Arm records the salt and the resume frame; Disarm clears; Check on an unarmed
+// watch answers (0, false); armed and the WAL still has the salt recorded: (resume frame, false),
+// watch unchanged; armed and the salt differs: the WAL was reset: (0, true) and the watch is
+// disarmed (the resume frame refers to a WAL generation that no longer exists).
+//@ func (*WALResetWatch) Arm
+//@   requires [recv] w != nil
+//@   ensures [armed] w.armed && w.resumeFrameIdx == resumeFrameIdx && w.salt == s
+//@ func (*WALResetWatch) Disarm
+//@   requires [recv] w != nil
+//@   ensures [disarmed] !w.armed
+//@ func (*WALResetWatch) Check
+//@   requires [recv] w != nil
+//@   ghost var armed0 bool = w.armed
+//@   ghost var resume0 int = w.resumeFrameIdx
+//@   ghost var same bool = false
+//@   ghost update @w.salt.Equal: same = result
+//@   assert @w.salt.Equal: [compares-current-salt] arg0 == current && armed0
+//@   ensures [unarmed] !armed0 ==> (result0 == 0 && !result1 && !w.armed)
+//@   ensures [same-generation] (armed0 && same) ==> (result0 == resume0 && !result1 && w.armed && w.resumeFrameIdx == resume0)
+//@   ensures [reset-detected] (armed0 && !same) ==> (result0 == 0 && result1 && !w.armed)
+//
+// Checkpoint (with a writer): the WAL is scanned from the frame the watch says (0 after a reset or
+// when unarmed) and written out before SQLite is asked to checkpoint; then, by SQLite's answer
+// (code, log frames, checkpointed frames): code 0 (truncated) => success, watch disarmed;
+// checkpointed < log (busy) => ErrDatabaseCheckpointBusy and the watch is left as Check left it,
+// so the next attempt resumes from the same frame and the caller drops the segment;
+// checkpointed == log (all moved, not truncated) => success and the watch is armed with the salt
+// read BEFORE the checkpoint and the frame count moved; checkpointed > log => invariant error.
+// An empty WAL disarms the watch and writes nothing.
+//@ type CheckpointManager
+//@   stable db, dbPath, walPath, resetWatch
+//@   stable_set_in NewCheckpointManager
+//@ type CheckpointMeta
+//@   stable Code, Pages, Moved
+//@   stable_set_in none
+//@ func (*CheckpointManager) Checkpoint
+//@   requires [recv] cm != nil && cm.resetWatch != nil && cm.db != nil
+//@   assigns **
+//@   ghost var saltV slice = nilslice
+//@   ghost var saltRead bool = false
+//@   ghost var startV int = 0
+//@   ghost var checked bool = false
+//@   ghost var wrote bool = false
+//@   ghost var closedFD bool = false
+//@   ghost var ckDone bool = false
+//@   ghost var nDisarm int = 0
+//@   ghost var nArm int = 0
+//@   ghost update @wal.ReadSaltAt#1: saltV = result0
+//@   ghost update @wal.ReadSaltAt#1: saltRead = (result1 == nil)
+//@   assert @cm.resetWatch.Check: [check-with-salt-read-before] saltRead && arg0 == saltV && !ckDone
+//@   ghost update @cm.resetWatch.Check: startV = result0
+//@   ghost update @cm.resetWatch.Check: checked = true
+//@   assert @wal.NewCompactingFrameScanner: [scan-from-resume-frame] checked && arg0 == walFD && arg1 == startV && !arg2
+//@   ghost update @ww.WriteTo: wrote = (result1 == nil)
+//@   assert @ww.WriteTo: [segment-to-the-given-writer] arg0 == w
+//@   ghost update @walFD.Close#2: closedFD = (result == nil)
+//@   assert @cm.db.CheckpointWithTimeout#2: [segment-written-then-truncate-checkpoint] wrote && closedFD && arg0 == CheckpointTruncate
+//@   ghost update @cm.db.CheckpointWithTimeout#2: ckDone = (result1 == nil)
+//@   assert @cm.resetWatch.Disarm#3: [disarm-only-when-truncated] ckDone && meta.Code == 0
+//@   ghost update @cm.resetWatch.Disarm: nDisarm = nDisarm + 1
+//@   assert @cm.resetWatch.Arm: [arm-after-full-backfill] ckDone && meta.Code != 0 && meta.Moved == meta.Pages && arg0 == saltV && arg1 == meta.Moved && nDisarm == 0
+//@   ghost update @cm.resetWatch.Arm: nArm = nArm + 1
+//@   ghost var codeV int = 0
+//@   ghost var pagesV int = 0
+//@   ghost var movedV int = 0
+//@   ghost update @cm.db.CheckpointWithTimeout#2: codeV = result0.Code
+//@   ghost update @cm.db.CheckpointWithTimeout#2: pagesV = result0.Pages
+//@   ghost update @cm.db.CheckpointWithTimeout#2: movedV = result0.Moved
+//@   ensures [truncated-is-success] (ckDone && codeV == 0) ==> (result2 == nil && nDisarm == 1 && nArm == 0 && !cm.resetWatch.armed)
+//@   ensures [busy-leaves-watch-alone] (ckDone && codeV != 0 && movedV < pagesV) ==> (result2 == ErrDatabaseCheckpointBusy && result1 == 0 && nArm == 0 && nDisarm == 0)
+//@   ensures [partial-is-success-armed] (ckDone && codeV != 0 && movedV == pagesV) ==> (result2 == nil && nArm == 1 && nDisarm == 0 && cm.resetWatch.armed && cm.resetWatch.resumeFrameIdx == movedV)
+//@   ensures [more-moved-than-logged-is-an-error] (ckDone && codeV != 0 && movedV > pagesV) ==> (result2 == ErrDatabaseCheckpointInvariant && nArm == 0 && nDisarm == 0)
+//@   ensures [segment-only-with-checkpoint] wrote ==> (ckDone || result2 != nil)
